@@ -412,6 +412,18 @@ def cycleRun (sc : Scripts) : Nat → World → World × List Ev
         (w2, e1 ++ e2)
       else (w1, e1)
 
+/-- users of the table whose descriptor is ready for the next poll round (unread data or a closed client) -/
+def readyUsers (w : World) : List Nat :=
+  (w.slots.filterMap id).filter (fun u => !(w.net.get u).rx.isEmpty || (w.net.get u).eof)
+
+/-- the poller hands out at most `MAX_EVENTS` events per round (lib/async/async_runtime_epoll.c); two are kept for
+    the listening port and the wake-up descriptor.  Harness discipline (harness and model alike): never more ready
+    descriptors than that, so one process_io sees every ready user -/
+def readyMax : Nat := NV.Gen.C12.maxEvents - 2
+
+def roundRoom (w : World) (u : Nat) : Bool :=
+  !(w.net.get u).rx.isEmpty || (w.net.get u).eof || decide ((readyUsers w).length < readyMax)
+
 /-- one harness action -/
 def step (sc : Scripts) (w : World) (c : Cmd) : World × List Ev :=
   if w.crashed then (w, []) else
@@ -419,11 +431,11 @@ def step (sc : Scripts) (w : World) (c : Cmd) : World × List Ev :=
   | .conn => ({ w with nconn := w.nconn + 1 }, [Ev.conn (w.nconn + 1)])
   | .send u data =>
     if u ≥ 1 && u ≤ w.naccepted && !(w.net.get u).eof && w.interactive u &&
-        rawLen ((w.net.get u).rx ++ data) ≤ recvChunk then
+        rawLen ((w.net.get u).rx ++ data) ≤ recvChunk && roundRoom w u then
       ({ w with net := upd w.net u { w.net.get u with rx := (w.net.get u).rx ++ data } }, [Ev.send u data])
     else (w, [])
   | .close u =>
-    if u ≥ 1 && u ≤ w.naccepted && !(w.net.get u).eof then
+    if u ≥ 1 && u ≤ w.naccepted && !(w.net.get u).eof && roundRoom w u then
       ({ w with net := upd w.net u { w.net.get u with eof := true } }, if w.interactive u then [Ev.close u] else [])
     else (w, [])
   | .cycle => cycleRun sc (weight w + 1) w
